@@ -15,6 +15,8 @@ MODULES = {
     "C09": "props.c09",
     "C10": "props.c10",
     "C11": "props.c11",
+    "C12": "props.c12",
+    "C14": "props.c14",
     "C15": "props.c15",
     "C16": "props.c16",
     "C17": "props.c17",
